@@ -68,7 +68,7 @@ pub fn op(u: &mut Unstructured) -> Result<Op> {
         }
         0..=9 => Op::Process { path, slack_in: slack(u)?, slack_out: slack(u)?, mask: mask(u)? },
         10..=11 => Op::Partial { path, frac: if u.ratio(1, 3)? { None } else { Some(u.arbitrary()?) }, slack_out: slack(u)?, mask: mask(u)? },
-        12..=16 => Op::SetRatio { pos: 2.0 * unit(u)? - 1.0, relative: u.arbitrary()?, ramp: u.arbitrary()? },
+        12..=16 => Op::SetRatio { pos: if u.ratio(1, 6)? { 0.0 } else { 2.0 * unit(u)? - 1.0 }, relative: u.arbitrary()?, ramp: u.arbitrary()? },
         17..=18 => Op::SetChunk { frac: u.arbitrary()? },
         _ => Op::Reset,
     })
